@@ -9,6 +9,7 @@ Theorem C04_stale_callback_noop : forall s t o b, stale s t ->
   except_inflight_cbmid (cb_start s t o) = except_inflight_cbmid s /\
   except_inflight_cbmid (cb_finish true s t b) = except_inflight_cbmid s.
 Proof. exact stale_callback_noop. Qed.
+Print Assumptions C04_stale_callback_noop.
 
 (* a new call on an idle object starts from a clean per-call state: nothing is left over *)
 Theorem C04_reuse_clean_start : forall g s cf n f, running s = false -> (phase s = Idle \/ phase s = Finished) ->
@@ -16,12 +17,14 @@ Theorem C04_reuse_clean_start : forall g s cf n f, running s = false -> (phase s
   per_call_fields s' = (0, [], [], [], 0, 0, (false, false, false, [], [], [], [], false)) /\
   cid s' = S (cid s) /\ running s' = true /\ phase s' = StartFirst.
 Proof. exact call_resets. Qed.
+Print Assumptions C04_reuse_clean_start.
 
 (* ... and, the C01 theorem being stated for every reachable state, the new call returns exactly the
    results of the new tasks whatever the history of the object was *)
 Theorem C04_reuse_results : forall s, reach s -> mode (c s) = Ordered -> ifail s = None ->
   phase s = Finished -> exception s = false -> abandoned s = false -> delivered s = seq 0 (N s).
 Proof. exact ordered_output_complete. Qed.
+Print Assumptions C04_reuse_results.
 
 (* a job that stays pending longer than `timeout` surfaces as TimeoutError in the caller *)
 Theorem C04_timeout : forall s j js,
@@ -29,12 +32,14 @@ Theorem C04_timeout : forall s j js,
   jobs s = j :: js -> status_of s j = Pending ->
   snd (step true s ETimeout) = [Raised ErrTimeout].
 Proof. exact timeout_raises. Qed.
+Print Assumptions C04_timeout.
 
 (* a failing task in the sequential path is raised, after the results before it *)
 Theorem C04_sequential_failure : forall tfail pre i post,
   (forall j, In j pre -> tfail j = false) -> tfail i = true ->
   seq_run tfail (pre ++ i :: post) = (pre, Some (ErrTask i)).
 Proof. exact seq_run_fail. Qed.
+Print Assumptions C04_sequential_failure.
 
 (* a registered failure (task error, input error, timeout) is what the caller gets: once the buffered
    values of an already retrieved batch are consumed, the next request raises the error of a failed batch
@@ -43,11 +48,13 @@ Theorem C04_failure_is_raised : forall s, reach s -> exception s = true -> phase
   pend_out s = [] -> want s = true ->
   exists e t, snd (try_advance s) = Some (Raised e) /\ In t (jobs s) /\ status_of s t = Failed e.
 Proof. exact failure_is_raised. Qed.
+Print Assumptions C04_failure_is_raised.
 
 (* ... and after a failure was registered the call never ends normally *)
 Theorem C04_no_normal_end_after_failure : forall s, reach s -> exception s = true -> in_try (phase s) ->
   snd (try_advance s) <> Some Stop.
 Proof. exact no_normal_end_after_failure. Qed.
+Print Assumptions C04_no_normal_end_after_failure.
 
 (* termination, part 1 (no hang): whenever the consumer is left waiting, the call is not aborting and
    at least one batch of THIS call is still in flight or inside its completion callback -- so under a fair
@@ -56,8 +63,10 @@ Theorem C04_waiting_means_work_in_flight : forall s, reach s -> want s = true ->
   snd (try_advance s) = None ->
   aborting s = false /\ exists t, is_cur s t = true /\ (In t (inflight s) \/ In t (cbmid s)).
 Proof. exact waiting_means_work_in_flight. Qed.
+Print Assumptions C04_waiting_means_work_in_flight.
 
 (* termination, part 2 (bounded work): completions of a call are bounded by its input *)
 Theorem C04_completions_bounded : forall s, reach s -> ifail s = None ->
   n_comp s <= n_disp s /\ n_disp s <= taken s /\ taken s <= N s.
 Proof. exact completions_bounded. Qed.
+Print Assumptions C04_completions_bounded.
